@@ -23,6 +23,10 @@ pub fn for_harness(name: &str, vals: &[Vec<u8>]) -> Option<bool> {
         }
         // values: nr
         "h_arch::configure_nr_pow2range_any" | "h_arch::pow2range_configure_column_count" => Some(sc::vk_read_with_nr_pow2range_cols(le(&vals[0]) as u8)),
+        // values: buf[0..18] one per byte, len; nr_pow2range_cols is byte 15
+        "h_arch::arch_read_total" => Some(sc::vk_read_with_nr_pow2range_cols(vals[15][0])),
+        // values: buf[0..BUF], len; k is byte 1
+        "h_vk_read::vk_read_total" => Some(sc::vk_read_with_k(vals[1][0])),
         // values: n
         "h_zkir::into_bytes_offcircuit_native" => Some(sc::zkir_into_bytes_native_offcircuit(le(&vals[0]) as usize)),
         "h_batch::batch_verify_no_keys" => Some(sc::batch_verify_empty()),
